@@ -568,11 +568,23 @@ def check_histories(ctx, pool, dist):
     from joserfc.rfc7519.registry import JWTClaimsRegistry
     rng = ctx.rng
     terms, metas = [], []
+    seqs = []
+    # directed: a claims set failing one clause, then sets lying exactly on every boundary of the
+    # same registry (any now / leeway / option remembered or altered by the failure shows), then the failing set again
+    for now, lw in ((1000, 10), (0, 0), (5, 60)):
+        for k, v, o, _ in failing_units(now, lw):
+            opts = {} if o is None else {k: copy.deepcopy(o)}
+            bad = {} if v is ABSENT else {k: copy.deepcopy(v)}
+            edge = [{"exp": now - lw}, {"nbf": now + lw}, {"iat": now + lw}, {"exp": now - lw - 1}, {"nbf": now + lw + 1},
+                    {"exp": now - lw, "nbf": now + lw, "iat": float(now + lw), "sub": "y", "aud": "y", "priv": "v"}, {}]
+            seqs.append((now, lw, opts, [bad] + edge + [copy.deepcopy(bad)] + [dict(e) for e in edge[:3]]))
     for _ in range(ctx.scale(150, 3000)):
         now, lw, opts, _c = rng.choice(pool)
         lw = 0 if lw is None else lw
         h = [copy.deepcopy(_c)] + [copy.deepcopy(rng.choice(pool)[3]) for _ in range(rng.randrange(1, 6))]
         rng.shuffle(h)
+        seqs.append((now, lw, opts, h))
+    for now, lw, opts, h in seqs:
         fresh = [cls_of(run_impl(now, lw, copy.deepcopy(opts), copy.deepcopy(c))[0]) for c in h]
         o_rep = rep(opts)
         try:
@@ -879,6 +891,54 @@ def check_current_time(ctx):
                                    "impl": got.__name__ if got else "returned"})
 
 
+def check_patched_clock(ctx, dist):
+    """now omitted with the module's clock patched to a fixed instant: the instant used is its integer part,
+    and every time boundary is judged against it (exact, no slack)"""
+    from joserfc.rfc7519 import registry as reg_mod
+    from joserfc.rfc7519.registry import JWTClaimsRegistry
+    real = getattr(reg_mod, "time", None)
+    if real is None or not hasattr(real, "time"):
+        ctx.notes.append("patched-clock probe skipped: joserfc.rfc7519.registry has no module-level `time`")
+        return
+
+    class Clock:
+        def __init__(self, t):
+            self.t = t
+
+        def time(self):
+            return self.t
+
+        def __getattr__(self, n):
+            return getattr(real, n)
+    for t in (1234567.9, 1234567.0, 0.4, 86400.999):
+        T = int(t)
+        for lw in (None, 0, 7):
+            L = lw or 0
+            reg_mod.time = Clock(t)
+            try:
+                regs = [JWTClaimsRegistry(**({} if lw is None else {"leeway": lw})),
+                        JWTClaimsRegistry(None, **({} if lw is None else {"leeway": lw}))]
+            finally:
+                reg_mod.time = real
+            for reg in regs:
+                probes = [({"exp": T - L - 1}, "EJose ExpiredTokenError"), ({"exp": T - L + 1}, None), ({"exp": T - L + 0.5}, None),
+                          ({"nbf": T + L}, None), ({"nbf": T + L + 1}, "EJose InvalidTokenError"), ({"nbf": T + L + 0.5}, "EJose InvalidTokenError"),
+                          ({"iat": T + L}, None), ({"iat": T + L + 1}, "EJose InvalidTokenError"), ({"iat": T + L - 0.5}, None)]
+                for claims, want in probes:
+                    try:
+                        r = reg.validate(dict(claims)); got = None if r is None else "EAssert"
+                    except BaseException as e:  # noqa
+                        got = exn_class(e)
+                    ctx.note_case(("patched-clock", t, lw, rep(claims)))
+                    dist["patched-clock"] = dist.get("patched-clock", 0) + 1
+                    if got != want or reg.now != T or isinstance(reg.now, bool) or not isinstance(reg.now, int):
+                        ctx.violation({"kind": "current-time-not-used"},
+                                      "with the clock at %r and now omitted (leeway=%r) the registry uses now=%r; claims %s -> %s, expected %s"
+                                      % (t, lw, reg.now, rep(claims), got or "returned", want or "returned"),
+                                      {"now": None, "clock": t, "leeway": lw, "options": "{}", "claims": rep(claims),
+                                       "offset_from_current_time": {k: v - T for k, v in claims.items()}, "impl": got or "returned"})
+
+
 def run(ctx):
     ok, log = ctx.prove(extra_targets=["model/C10Cases.vo"])
     cases, meta = [], []
@@ -916,6 +976,7 @@ def run(ctx):
                         n_sweep += 1
     dist["never-accept-sweep"] = n_sweep
     check_current_time(ctx)
+    check_patched_clock(ctx, dist)
 
     ctx.coverage["rule"] = ("[also: ClaimsRegistry used directly vs validate_base / accepts_base; one registry object over a history "
                             "of claims sets vs run_history; validate_<k>/check_value called directly vs check_claim/check_value; entry-point "
